@@ -28,6 +28,9 @@ func init() {
 	register(&core.Rule{ID: "C19.3", Prop: "C19", MinSites: 2,
 		Desc: "Engine.Stop returns nil only on the isShutdown() edge; the ctx.Done() arm returns ctx.Err()",
 		Run: runC19_3})
+	register(&core.Rule{ID: "C19.5", Prop: "C19", MinSites: 2,
+		Desc: "every function that submits a register task and waits for its completion is reached only behind an isShutdown()==false test (in the function itself or in each of its in-package callers): on a stopped engine the task would never run and the call never return",
+		Run: runC19_5})
 	register(&core.Rule{ID: "C19.4", Prop: "C19", MinSites: 3,
 		Desc: "enroll worker: exactly one send on the result channel on every path, channel buffered (cap >= 1) and closed by defer",
 		Run: runC19_4})
@@ -383,4 +386,106 @@ func runC19_4(c *core.Ctx) {
 		c.Check(cs == flow.Cnt1, f.Name, "one result per call (return #"+itoa(i)+")", b.Return.Pos(), "exactly one send before the worker returns",
 			"a path of the enrol worker sends "+flow.CountSet(cs)+" results: the caller receives no result (only the close) or a second send blocks the worker because the buffer holds one")
 	})
+}
+
+func runC19_5(c *core.Ctx) {
+	v := vocabOf(c)
+	if v == nil {
+		return
+	}
+	trig := c.P.Func("pkg/netpoll", "Poller.Trigger")
+	register := c.P.Func("", "eventloop.register")
+	isShutdown := c.P.Func("", "engine.isShutdown")
+	if !c.Need("Trigger", trig) || !c.Need("register", register) || !c.Need("isShutdown", isShutdown) {
+		return
+	}
+	// does body contain Trigger(_, X.register, _) and a channel receive?
+	submitsAndWaits := func(f *fn) (*ast.CallExpr, bool) {
+		var site *ast.CallExpr
+		waits := false
+		ast.Inspect(f.Decl.Body, func(n ast.Node) bool {
+			switch y := n.(type) {
+			case *ast.CallExpr:
+				if flow.IsCall(f.Info, y, trig) && len(y.Args) == 3 {
+					if sel, ok := ast.Unparen(y.Args[1]).(*ast.SelectorExpr); ok {
+						if s, ok := f.Info.Selections[sel]; ok && s.Obj() == register {
+							site = y
+						}
+					}
+				}
+			case *ast.UnaryExpr:
+				if y.Op == token.ARROW {
+					waits = true
+				}
+			}
+			return true
+		})
+		return site, site != nil && waits
+	}
+	testedBefore := func(f *fn, target func(call *ast.CallExpr) bool) (bool, token.Pos) {
+		const fRunning = 1
+		p := &flow.Problem{Must: true}
+		p.Edge = func(e *flow.Edge, in uint64) uint64 {
+			if e.Cond != nil && e.Tag == nil && !e.Sense {
+				if call, ok := ast.Unparen(e.Cond).(*ast.CallExpr); ok && flow.IsCall(f.Info, call, isShutdown) {
+					in |= fRunning
+				}
+			}
+			return in
+		}
+		sol := f.Graph().Solve(p)
+		okk, found := true, false
+		var pos token.Pos
+		sol.Walk(func(b *flow.Block, i int, n ast.Node, before uint64) {
+			for _, call := range callsIn(n, true) {
+				if target(call) {
+					found = true
+					pos = call.Pos()
+					if before&fRunning == 0 {
+						okk = false
+					}
+				}
+			}
+		})
+		return okk && found, pos
+	}
+	for _, f := range v.funcs {
+		site, ok := submitsAndWaits(f)
+		if !ok {
+			continue
+		}
+		if good, _ := testedBefore(f, func(call *ast.CallExpr) bool { return call == site }); good {
+			c.Ok(f.Name, "register-and-wait behind isShutdown()", site.Pos(), "tested in the function itself")
+			continue
+		}
+		// every in-package caller must test before calling
+		nCallers, allGood := 0, true
+		var badCaller string
+		for _, g := range v.funcs {
+			has := false
+			for _, call := range callsIn(g.Decl.Body, true) {
+				if flow.IsCall(g.Info, call, f.Obj) {
+					has = true
+				}
+			}
+			if !has {
+				continue
+			}
+			nCallers++
+			if good, _ := testedBefore(g, func(call *ast.CallExpr) bool { return flow.IsCall(g.Info, call, f.Obj) }); !good {
+				// one more level: exported wrappers that only forward (Dial -> DialContext -> EnrollContext)
+				allGood = false
+				badCaller = g.Name
+			}
+		}
+		exported := ast.IsExported(f.Obj.Name())
+		if exported || nCallers == 0 {
+			allGood = false
+			if badCaller == "" {
+				badCaller = "its API callers"
+			}
+		}
+		c.Check(allGood, f.Name, "register-and-wait behind isShutdown()", site.Pos(), "every caller tests isShutdown() first",
+			f.Obj.Name()+" queues a register task and blocks until it ran, but is reachable (via "+badCaller+") without an isShutdown() test: on a stopped engine/client the loop is gone, the task never runs and the call blocks forever instead of returning ErrEngineInShutdown")
+	}
 }
